@@ -665,3 +665,140 @@ func c11Crosstalk(R *vr.Result, rng *rand.Rand) {
 		R.Violate("c11:cross-talk", fmt.Sprintf("%d of %d concurrent connections received an answer that is not theirs; first: %s", wrong, total, first), "crosstalk", nil)
 	}
 }
+
+// ---------------------------------------------------------------------------------------------------------
+// backlog: many slow write requests queued behind one another for longer than any plausible client-side patience.
+// Whatever a request is answered with must be what happened: an add / update answered with an error must not take
+// effect later, an acknowledged one must be there.
+
+func TestVerifC11Backlog(t *testing.T) { c11Backlog("C11", "backlog", "c11") }
+func TestVerifC15Backlog(t *testing.T) { c11Backlog("C15", "agent-backlog", "c15") }
+
+func c11Backlog(prop, stage, pfx string) {
+	R := vr.New(prop, stage, "an in-process agent whose default parameter set costs a few hundred milliseconds per hash receives so many add / update / set-admin requests at once that the last ones wait in the queue for more than 12 s; every request's answer is recorded; after the queue has drained (FIFO barrier, then 3 more seconds) every user is read back: a request answered with an error must have had no effect (no file, old password, old flag), an acknowledged one must be in effect. Non-trivial: every request that waited longer than 5 s; distinct by request")
+	defer R.Write()
+	rng := R.Rand("backlog")
+	dir := ovlWork("backlog")
+	key := make([]byte, 32)
+	rng.Read(key)
+	sets := []ref.ParamSet{{ID: 1, Algo: ref.AlgoScrypt, HmacKey: key, Cost: 15, R: 8, P: 1}, {ID: 2, Algo: ref.AlgoScrypt, HmacKey: key, Cost: 2, R: 1, P: 1}}
+	users := []ovlUser{{Name: "root", Pw: "rootpw", Admin: true, Set: 2}}
+	for i := 0; i < 8; i++ {
+		users = append(users, ovlUser{Name: fmt.Sprintf("old%d", i), Pw: fmt.Sprintf("oldpw%d", i), Set: 2})
+	}
+	st := ovlMkStore(rng, dir, sets, 1, users)
+	ag, err := NewStore(st.Cfg, "", "", "", "")
+	if err != nil {
+		R.Fatal = err.Error()
+		return
+	}
+	iface := ag.GetInterface()
+	t0 := time.Now()
+	iface.Add("calib", "calib-pw", false) //nolint:errcheck
+	per := time.Since(t0)
+	// add, update and set-admin have a queue of 10 each: with adds and updates alternating a late request finds about
+	// 20 others in front of it after it has been queued
+	n := int(17*time.Second/per) + 2
+	if n < 26 {
+		n = 26
+	}
+	if n > 120 {
+		n = 120
+	}
+	type res struct {
+		kind, user, pw string
+		err            error
+		waited         time.Duration
+	}
+	out := make([]res, n)
+	var wg sync.WaitGroup
+	gate := make(chan struct{})
+	for i := 0; i < n; i++ {
+		r := res{kind: "add", user: fmt.Sprintf("new%d", i), pw: fmt.Sprintf("newpw-%d", i)}
+		switch {
+		case i%11 == 7:
+			r = res{kind: "setadmin", user: fmt.Sprintf("old%d", 7-(i/11)%8)}
+		case i%2 == 1:
+			r = res{kind: "update", user: fmt.Sprintf("old%d", (i/2)%8), pw: fmt.Sprintf("updated-%d", i)}
+		}
+		out[i] = r
+		wg.Add(1)
+		go func(i int) {
+			defer wg.Done()
+			<-gate
+			time.Sleep(time.Duration(i) * time.Millisecond) // arrival order = index
+			s := time.Now()
+			switch out[i].kind {
+			case "add":
+				out[i].err = iface.Add(out[i].user, out[i].pw, false)
+			case "update":
+				out[i].err = iface.Update(out[i].user, out[i].pw)
+			case "setadmin":
+				out[i].err = iface.SetAdmin(out[i].user, true)
+			}
+			out[i].waited = time.Since(s)
+		}(i)
+	}
+	close(gate)
+	wg.Wait()
+	iface.Update("zz-barrier-nonexistent", "x") //nolint:errcheck
+	time.Sleep(3 * time.Second)                 // requests abandoned by their callers may still be in the queue
+	iface.Update("zz-barrier-nonexistent", "x") //nolint:errcheck
+	lastUpd := map[string]int{}
+	for i, r := range out {
+		if r.kind == "update" && r.err == nil {
+			lastUpd[r.user] = i
+		}
+	}
+	var maxWait time.Duration
+	for i, r := range out {
+		if r.waited > maxWait {
+			maxWait = r.waited
+		}
+		R.Case(fmt.Sprintf("%s|%s|%d", r.kind, r.user, i), r.waited > 5*time.Second)
+		R.Count("backlog_requests", 1)
+		wit := map[string]any{"request": r.kind, "user": r.user, "answer": fmt.Sprint(r.err), "waited_ms": r.waited.Milliseconds(), "hash_cost_ms": per.Milliseconds(), "requests": n}
+		switch r.kind {
+		case "add":
+			ok, _, _, _ := iface.Authenticate(r.user, r.pw)
+			if r.err != nil && ok {
+				R.Violate(pfx+":request-answered-with-error-took-effect:add", fmt.Sprintf("add(%s) was answered %q after %v, yet the user exists with that password afterwards", r.user, r.err, r.waited), "backlog", wit)
+			}
+			if r.err == nil && !ok {
+				R.Violate(pfx+":acknowledged-request-not-in-effect:add", fmt.Sprintf("add(%s) was acknowledged but the user does not authenticate", r.user), "backlog", wit)
+			}
+		case "update":
+			ok, _, _, _ := iface.Authenticate(r.user, r.pw)
+			if r.err != nil && ok {
+				R.Violate(pfx+":request-answered-with-error-took-effect:update", fmt.Sprintf("update(%s) was answered %q after %v, yet that password authenticates afterwards", r.user, r.err, r.waited), "backlog", wit)
+			}
+			if r.err == nil && lastUpd[r.user] == i && !ok {
+				// (several updates of one user: only the last acknowledged one must be in effect, provided no failed one overtook it)
+				overtaken := false
+				for j := i + 1; j < len(out); j++ {
+					if out[j].kind == "update" && out[j].user == r.user {
+						overtaken = true
+					}
+				}
+				if !overtaken {
+					R.Violate(pfx+":acknowledged-request-not-in-effect:update", fmt.Sprintf("update(%s) was acknowledged last but its password does not authenticate", r.user), "backlog", wit)
+				}
+			}
+		case "setadmin":
+			_, adm, _, _ := iface.Authenticate(r.user, map[bool]string{true: "x", false: "x"}[true])
+			l, _ := iface.List()
+			adm = l[r.user].IsAdmin
+			if r.err != nil && adm {
+				R.Violate(pfx+":request-answered-with-error-took-effect:setadmin", fmt.Sprintf("set-admin(%s) was answered %q after %v, yet the user is an administrator afterwards", r.user, r.err, r.waited), "backlog", wit)
+			}
+			if r.err == nil && !adm {
+				R.Violate(pfx+":acknowledged-request-not-in-effect:setadmin", "set-admin was acknowledged but the user is no administrator", "backlog", wit)
+			}
+		}
+	}
+	R.Count("backlog_max_wait_ms", int(maxWait.Milliseconds()))
+	if maxWait < 12*time.Second {
+		R.Inconcl(fmt.Sprintf("the backlog was shorter than intended: longest wait %v", maxWait))
+	}
+	R.Sample(map[string]any{"requests": n, "hash_cost_ms": per.Milliseconds(), "longest_wait_ms": maxWait.Milliseconds()})
+}
